@@ -55,14 +55,11 @@ def main():
         os.remove(f"{wt}/demo_seed.py")
         meta["checks"] = {}
         for c in checks:
-            cenv = dict(os.environ, VERIF_REPO=wt, VERIF_SCRATCH="/tmp")
+            cenv = dict(os.environ, VERIF_REPO=wt, VERIF_SCRATCH="/tmp", VERIF_REPLAY_DIR=f"{wt}/_replays", VERIF_EVIDENCE_DIR=f"{wt}/_evidence")
             t0 = time.time()
             r = run(["/verif/check", c, "quick"], cwd="/verif", env=cenv)
             sigs = [l.strip()[:300] for l in r.stdout.splitlines() if l.strip().startswith("signature:")]
             meta["checks"][c] = {"exit": r.returncode, "caught": r.returncode == 1, "signatures": sigs[:6], "wall_s": round(time.time() - t0)}
-            for f in os.listdir(f"/verif/replays/{c}") if os.path.isdir(f"/verif/replays/{c}") else []:
-                if f.startswith("new-"): os.remove(f"/verif/replays/{c}/{f}")
-            run(["git", "checkout", "-q", "--", f"evidence/{c}.json"], cwd="/verif")
             meta["ran"].append(f"VERIF_REPO=<patched worktree> ./check {c} quick")
     finally:
         run(["git", "-C", "/repo", "worktree", "remove", "--force", wt])
